@@ -14,7 +14,8 @@ Import ListNotations.
 From Omega Require Import L7Codegen.Pred L7Codegen.PredFacts L7Codegen.Synth
   L7Codegen.SynthProofs L7Codegen.Bits L7Codegen.BitsProofs L7Codegen.Dag
   L7Codegen.DagProofs L7Codegen.Step L7Codegen.StepProofs
-  L7Codegen.Render L7Codegen.RenderProofs.
+  L7Codegen.Render L7Codegen.RenderProofs L7Codegen.BitsConverse
+  L7Codegen.StepProgProofs.
 From OmegaGen Require Import C13_tables.
 From OmegaGen Require Import CodegenGen.
 From OmegaGP Require Import CodegenBridge.
@@ -28,6 +29,25 @@ Theorem C13_int_bits_roundtrip : forall t v,
   representable t v ->
   decode t (firstn (nbits t) (encode t v)) = v.
 Proof. exact int_bits_roundtrip. Qed.
+
+(* (1') the converse: every list of nbits t bits decodes to a representable
+   value, decoding is injective on such lists, and encoding the decoded value
+   gives the bits back.  So the integers step returns denote exactly the
+   output bits of the assignment that satisfies the relation
+   (C13_step_outputs_encode_back below). *)
+Theorem C13_decode_representable : forall t bits,
+  List.length bits = nbits t -> representable t (decode t bits).
+Proof. exact decode_representable. Qed.
+
+Theorem C13_decode_injective : forall t b1 b2,
+  List.length b1 = nbits t -> List.length b2 = nbits t ->
+  decode t b1 = decode t b2 -> b1 = b2.
+Proof. exact decode_inj. Qed.
+
+Theorem C13_bits_int_roundtrip : forall t bits,
+  List.length bits = nbits t ->
+  firstn (nbits t) (encode t (decode t bits)) = bits.
+Proof. exact bits_int_roundtrip. Qed.
 
 (* (2) straightline_correct: for every DAG whose levels strictly increase
    along edges, every list of named roots and every input a, the emitted
@@ -53,7 +73,13 @@ Proof. intros d nlev roots WF. exact (latches_assigned_once d nlev WF [] roots).
    values of non-output variables for which some assignment of the output
    bits satisfies r: the completed bit assignment a' satisfies r, decodes to
    the given state on the state's variables, and step returns exactly the
-   requested output variables with the values a' decodes to. *)
+   requested output variables with the values a' decodes to.
+   [state_ok] does not ask that every declared variable has a value: for a
+   partial state the model reads the missing bits as false, whereas the real
+   generated step raises KeyError when compute_bdds reads a bit of a variable
+   the state does not mention (Step.v); the statement says what the real step
+   returns only for states that mention every variable the functions read
+   (the correspondence runs total states). *)
 Theorem C13_step_correct :
   forall n restrict, restrict_agrees n restrict -> restrict_support n restrict ->
   forall ly out_vars r order,
@@ -71,20 +97,52 @@ Theorem C13_step_correct :
   = map (fun x => (x, decode (var_type ly x) (read_bits a' (var_bits ly x)))) out_vars.
 Proof. exact step_correct. Qed.
 
+(* the value step returns for a requested output variable x is
+   decode (the bits of x in a'); encoding it gives those bits back, i.e. the
+   returned integers, written into the bits, are the assignment a' of which
+   (3) says r a' = true *)
+Theorem C13_step_outputs_encode_back :
+  forall n ly x (a' : asg),
+  layout_ok n ly -> x < List.length ly ->
+  let t := var_type ly x in
+  let bits := read_bits a' (var_bits ly x) in
+  representable t (decode t bits) /\
+  firstn (nbits t) (encode t (decode t bits)) = bits.
+Proof.
+  intros n ly x a' [L _] Hx t bits.
+  destruct (L x Hx) as (_ & _ & Hlen).
+  assert (List.length bits = nbits t) as Hb
+    by (unfold bits, read_bits; rewrite map_length; exact Hlen).
+  split; [apply decode_representable, Hb|apply bits_int_roundtrip, Hb].
+Qed.
+
 (* the same when compute_bdds executes the program emitted for a well-formed
-   DAG whose references denote the extracted functions (this link between the
-   manager's DAG and the function is the trusted meaning of dd, re-checked by
-   the correspondence on every sampled DAG) *)
+   DAG whose references denote the extracted functions AT EVERY ASSIGNMENT OF
+   THE n DECLARED BITS (this link between the manager's DAG and the function
+   is the trusted meaning of dd, re-checked by the correspondence on every
+   sampled DAG).  The premise is restricted to assignments of length n: a
+   reference is read through [get] (false beyond the end of the list) while
+   the extracted functions are tabulated over exactly n bits, so the two can
+   differ on longer or shorter lists; only [assign_bitvectors n ly state],
+   which has length n, is ever used.  (The unrestricted premise of
+   StepProofs.step_prog_correct cannot be met by a relation that depends on a
+   bit; that lemma is no longer used.)  C13_step_through_program_instance
+   below shows every hypothesis satisfiable. *)
 Theorem C13_step_through_program :
   forall n restrict ly out_vars r order d nlev keys state,
   wf_dag d nlev = true ->
   (forall k, In k keys -> root_ok_p d nlev k) ->
-  (forall a, Forall2 (fun k e => ref_val (S nlev) d a k = fst (snd e) a) keys
-               (functions n restrict ly out_vars r order)) ->
+  (forall a, List.length a = n ->
+     Forall2 (fun k e => ref_val (S nlev) d a k = fst (snd e) a) keys
+       (functions n restrict ly out_vars r order)) ->
   step_prog n ly out_vars nlev d
     (combine (map fst (functions n restrict ly out_vars r order)) keys) state
   = Some (step n restrict ly out_vars r order state).
-Proof. exact step_prog_correct. Qed.
+Proof. exact step_prog_correct_len. Qed.
+
+Theorem C13_assign_bitvectors_length : forall n ly state,
+  List.length (assign_bitvectors n ly state) = n.
+Proof. exact assign_bitvectors_length. Qed.
 
 (* (4) tie G, by computation over the extracted table (the bound is the
    table): both targets are present, define the same keys, and define every
@@ -258,6 +316,60 @@ Proof.
   - vm_compute. reflexivity.
 Qed.
 
+(* non-vacuity of C13_step_through_program: the same layout and relation
+   (x' = x), a DAG whose references 11 and 10 denote the two extracted
+   functions (bit 3 := bit 1, bit 2 := bit 0) at all 16 assignments of the 4
+   declared bits, and the step through the emitted program *)
+Definition ex_dag2 : dag :=
+  [ (1%Z, mk_info true false 0 0 0 0); ((-1)%Z, mk_info true true 0 0 0 0);
+    (10%Z, mk_info false false 0 0 (-1) 1);
+    (11%Z, mk_info false false 1 1 (-1) 1) ].
+Example C13_step_through_program_instance :
+  let order := [(3, [0; 1]); (2, [0; 1])] in
+  let fs := functions 4 no_restrict ex_ly [1] ex_rel order in
+  wf_dag ex_dag2 2 = true /\
+  (forall k, In k [11%Z; 10%Z] -> root_ok_p ex_dag2 2 k) /\
+  (forall a, List.length a = 4 ->
+     Forall2 (fun k e => ref_val 3 ex_dag2 a k = fst (snd e) a) [11%Z; 10%Z] fs) /\
+  step_prog 4 ex_ly [1] 2 ex_dag2 (combine (map fst fs) [11%Z; 10%Z])
+    [(0, VZ (-2))] = Some [(1, VZ (-2))] /\
+  step 4 no_restrict ex_ly [1] ex_rel order [(0, VZ (-2))] = [(1, VZ (-2))].
+Proof.
+  cbv zeta. split; [vm_compute; reflexivity|]. split.
+  - intros k [<-|[<-|[]]]; eexists; (split; [vm_compute; reflexivity|right; cbn; lia]).
+  - split; [|split; vm_compute; reflexivity].
+    apply denotes_b_spec. vm_compute. reflexivity.
+Qed.
+
+(* non-vacuity of the renamed emitter: the DAG of the examples above emitted
+   with renaming = {"x": "bitvectors[""v""][0]", "y": ...} (node.var = "x" for
+   bit 0, "y" for bit 1), as dumps_bdds_as_code does *)
+Definition ex_ren : list (string * string) :=
+  [("x", "bitvectors[""v""][0]"); ("y", "bitvectors[""v""][1]")]%string.
+Definition ex_rnames : list string :=
+  ["bitvectors[""v""][0]"; "bitvectors[""v""][1]"]%string.
+Example C13_emitter_renamed_instance :
+  exists syc,
+    lang_syntax "c" languages = Some syc /\
+    forallb (code_ok ex_rnames syc oname)
+      (dumps_bdd_as_code 2 ex_dag [(0, (-5)%Z); (1, 5%Z)]) = true /\
+    cg_dumps_bdd_as_code (dag_term ex_dag) (dag_neg ex_dag) (dag_low ex_dag)
+      (dag_high ex_dag) (dag_var ex_dag ["x"; "y"]%string) (dag_succ ex_dag) 3
+      (map (root_name oname) [(0, (-5)%Z); (1, 5%Z)]) "c" (Some ex_ren)
+    = Some (render syc ex_rnames oname
+              (dumps_bdd_as_code 2 ex_dag [(0, (-5)%Z); (1, 5%Z)])) /\
+    (* the renaming sends every node's variable to the expression that
+       stands for the bit it tests *)
+    forallb (fun e => i_term (snd e) ||
+       String.eqb
+         (dict_get_default ex_ren (dag_var ex_dag ["x"; "y"]%string (fst e))
+            (dag_var ex_dag ["x"; "y"]%string (fst e)))
+         (bitname ex_rnames (i_var (snd e)))) ex_dag = true.
+Proof.
+  eexists. split; [vm_compute; reflexivity|].
+  repeat split; vm_compute; reflexivity.
+Qed.
+
 (* regression examples for the defects repaired by fixes/F4.patch: with the
    old int_to_bits, x = -3 under the hint -3..3 decoded to +1 *)
 Example C13_refuted_neg_old_code :
@@ -294,9 +406,11 @@ Qed.
    dumps_bdd_as_code.  A text is the list of its tokens as Render.v cuts a
    text; the literal text of the f-strings is cut by the translator with the
    same rules.  The BDD manager is read through int(u), u.var, u.negated,
-   node.low/high, bdd.succ: here the accessors of the DAG [d] (the general
-   statement, for any accessors that agree with d and any renaming, is
-   CodegenBridge.dumps_bdd_as_code_is_translated_code).
+   node.low/high, bdd.succ.  HEADLINE: C13_emitter_is_translated_code_renamed,
+   for ANY accessors that agree with the DAG and ANY renaming (None or
+   Some dict: dumps_bdds_as_code always passes map_bits_to_bitvectors(..));
+   C13_emitter_is_translated_code after it is the instance renaming = None
+   with the accessors of the DAG [d].
    For a language of the extracted table whose operator tokens are not
    empty, a well-formed DAG whose nodes test named bits, roots of the DAG,
    and provided no code line begins with or contains the comment token
@@ -304,6 +418,37 @@ Qed.
    the translated dumps_bdd_as_code, run with one unit of fuel more than
    there are levels, returns exactly the token list Render.render lays out
    for the program of Dag.dumps_bdd_as_code. *)
+Theorem C13_emitter_is_translated_code_renamed :
+  forall (ref_is_terminal ref_negated : Z -> bool) (ref_low ref_high : Z -> Z)
+         (ref_var : Z -> string) (bdd_succ : Z -> nat * Z * Z)
+         (d : dag) (names : list string) (renaming tbl : list (string * string))
+         (sy : syntax),
+  syntax_of tbl = Some sy ->
+  s_true sy <> ""%string /\ s_not sy <> ""%string /\ s_and sy <> ""%string /\
+  s_or sy <> ""%string /\ s_comment sy <> ""%string ->
+  (* the accessors read the DAG; renaming.get(node.var, node.var) is the
+     (non-empty) expression that stands for the input bit the node tests *)
+  (forall u i, find_info d u = Some i ->
+     ref_is_terminal u = i_term i /\ ref_negated u = i_neg i /\
+     (i_term i = false ->
+        ref_low u = i_low i /\ ref_high u = i_high i /\
+        bdd_succ u = (i_level i, i_low i, i_high i) /\
+        dict_get_default renaming (ref_var u) (ref_var u) =
+        bitname names (i_var i) /\ bitname names (i_var i) <> ""%string)) ->
+  forall outname nlev roots lang oren,
+  assoc_langs lang languages = Some tbl ->
+  match oren with Some o => o | None => [] end = renaming ->
+  wf_dag d nlev = true ->
+  (forall r, In r roots -> root_ok_p d nlev (snd r)) ->
+  forallb (code_ok names sy outname) (dumps_bdd_as_code nlev d roots) = true ->
+  cg_dumps_bdd_as_code ref_is_terminal ref_negated ref_low ref_high ref_var
+    bdd_succ (S nlev) (map (root_name outname) roots) lang oren =
+  Some (render sy names outname (dumps_bdd_as_code nlev d roots)).
+Proof. exact dumps_bdd_as_code_is_translated_code. Qed.
+
+(* the instance without a renaming (roots dumped as dumps_bdd_as_code(roots,
+   bdd, lang) does, as in the raw-emission correspondence), with the
+   accessors of the DAG *)
 Theorem C13_emitter_is_translated_code :
   forall lang sy, lang_syntax lang languages = Some sy ->
   tokens_nonempty sy = true ->
@@ -446,3 +591,9 @@ Print Assumptions C13_translated_tables_ok_bounded.
 Print Assumptions C13_twos_complement_is_translated_code.
 Print Assumptions C13_list_bits_is_translated_code.
 Print Assumptions C13_assign_bitvectors_is_translated_code.
+Print Assumptions C13_decode_representable.
+Print Assumptions C13_decode_injective.
+Print Assumptions C13_bits_int_roundtrip.
+Print Assumptions C13_step_outputs_encode_back.
+Print Assumptions C13_assign_bitvectors_length.
+Print Assumptions C13_emitter_is_translated_code_renamed.
